@@ -72,6 +72,14 @@ func TestConcurrentRealClock(t *testing.T) {
 		for i := range never {
 			never[i] = rapid.IntRange(0, 2).Draw(t, "neverArrives") > 0
 		}
+		// several item kinds in one manager (each hash belongs to one kind; a kind has its own holder and tracker, as in
+		// the node): every request has to name the kind under which the hash was announced
+		kindPool := []uint8{pushTyp, kVote, kBlock, kTx}
+		nK := rapid.IntRange(1, 4).Draw(t, "kinds")
+		kindOf := make([]int, nH)
+		for i := range kindOf {
+			kindOf[i] = rapid.IntRange(0, nK-1).Draw(t, "kindOfHash")
+		}
 		pauses := []time.Duration{0, 0, 50 * time.Microsecond, 500 * time.Microsecond, 2 * time.Millisecond, 8 * time.Millisecond, 25 * time.Millisecond}
 		scripts := make([][]bOp, bWorkers)
 		totalAnn := 0
@@ -106,12 +114,28 @@ func TestConcurrentRealClock(t *testing.T) {
 			peerIdx[peers[i]] = i
 		}
 
-		tracker := pushpull.NewDefaultPushTracker(bDelay)
-		holder := pushpull.NewDefaultHolder(1, tracker)
-		maxPar := int(holder.MaxParallelPulls())
+		trackers := make([]*pushpull.DefaultPushTracker, nK)
+		holders := make([]pushpull.Holder, nK)
 		mgr := protocol.NewPushPullManager()
-		mgr.AddEntryHolder(pushTyp, holder)
+		for i := 0; i < nK; i++ {
+			trackers[i] = pushpull.NewDefaultPushTracker(bDelay)
+			holders[i] = pushpull.NewDefaultHolder(1, trackers[i])
+			mgr.AddEntryHolder(protocol.VerifPushType(kindPool[i]), holders[i])
+		}
+		maxPar := int(holders[0].MaxParallelPulls())
 		mgr.Run()
+		pendingLen := func() (n int) {
+			for _, tr := range trackers {
+				n += tr.VerifC20PendingLen()
+			}
+			return n
+		}
+		activeLen := func() (n int) {
+			for _, tr := range trackers {
+				n += len(tr.VerifC20ActivePulls())
+			}
+			return n
+		}
 
 		var (
 			mu         sync.Mutex
@@ -142,8 +166,12 @@ func TestConcurrentRealClock(t *testing.T) {
 						now := time.Now()
 						hi, okh := hashIdx[h]
 						pi, okp := peerIdx[id]
-						if !okh || !okp || typ != pushTyp {
+						if !okh || !okp {
 							violate("request for something never announced: peer=%q type=%d hash=%x", id, typ, h[:2])
+							continue
+						}
+						if typ != kindPool[kindOf[hi]] {
+							violate("P1 violated: P%d is asked for (kind %d, h%d), but h%d was announced under kind %d only: the peer cannot serve that item", pi, typ, hi, hi, kindPool[kindOf[hi]])
 							continue
 						}
 						reqs = append(reqs, bReq{peer: pi, hash: hi, at: now})
@@ -157,10 +185,10 @@ func TestConcurrentRealClock(t *testing.T) {
 				}
 				last = now
 				if tick%8 == 0 {
-					if n := tracker.VerifC20PendingLen(); n > maxPending {
+					if n := pendingLen(); n > maxPending {
 						maxPending = n
 					}
-					if n := len(tracker.VerifC20ActivePulls()); n > maxActive {
+					if n := activeLen(); n > maxActive {
 						maxActive = n
 					}
 				}
@@ -212,9 +240,9 @@ func TestConcurrentRealClock(t *testing.T) {
 					if op.kind == 0 {
 						post := atomic.LoadInt32(&arrivedAck[op.hash]) == 1
 						anns[g] = append(anns[g], bAnn{peer: g, hash: op.hash, start: time.Now(), postArrival: post})
-						mgr.VerifC20AddPush(peers[g], pushTyp, hashes[op.hash])
+						mgr.VerifC20AddPush(peers[g], kindPool[kindOf[op.hash]], hashes[op.hash])
 					} else {
-						holder.Add(hashes[op.hash], op.hash, common.MultiShard, false)
+						holders[kindOf[op.hash]].Add(hashes[op.hash], op.hash, common.MultiShard, false)
 						after := time.Now()
 						mu.Lock()
 						if arrivedAt[op.hash].IsZero() || after.Before(arrivedAt[op.hash]) {
@@ -235,7 +263,7 @@ func TestConcurrentRealClock(t *testing.T) {
 		time.Sleep(8 * bDelay)
 		windowEnd := time.Now()
 		for hi := range hashes {
-			holder.Add(hashes[hi], hi, common.MultiShard, false)
+			holders[kindOf[hi]].Add(hashes[hi], hi, common.MultiShard, false)
 			after := time.Now()
 			if arrivedAt[hi].IsZero() {
 				arrivedAt[hi] = after
@@ -248,7 +276,7 @@ func TestConcurrentRealClock(t *testing.T) {
 		if d := time.Duration(atomic.LoadInt64(&canaryMax)); d > maxBeat {
 			maxBeat = d
 		}
-		endPending, endActive := tracker.VerifC20PendingLen(), len(tracker.VerifC20ActivePulls())
+		endPending, endActive := pendingLen(), activeLen()
 
 		// ---- oracle (single goroutine from here on) ----
 		for _, v := range violations {
@@ -365,6 +393,9 @@ func TestConcurrentRealClock(t *testing.T) {
 			evid.Count("b.hash." + fate)
 			if len(l) > maxPar-1 {
 				evid.Count("b.hash.with-follow-up-pull")
+				if nK > 1 {
+					evid.Count("b.hash.with-follow-up-pull.manager-with-several-kinds")
+				}
 			}
 			if d >= 3 && (!inWindow || before >= 2) {
 				evid.Count("b.hash.nontrivial")
@@ -384,6 +415,7 @@ func TestConcurrentRealClock(t *testing.T) {
 		if endActive != 0 {
 			evid.Count("b.note.active-entry-left-after-delivery")
 		}
+		evid.Count(fmt.Sprintf("b.run.kinds=%d", nK))
 		evid.Count("b.run.completed")
 	})
 }
